@@ -40,6 +40,11 @@
 //	              interface-typed fields with Equal / Compare, private fields of external structs, command-line
 //	              errors (-pluginprefix without '=', .go files mixed with packages, arguments after --), and
 //	              I/O failures (derived.gen.go being a directory)
+//	generics      derive calls whose argument type mentions a type parameter ([]T, map[K]V, *G[T], G[T] with a field of
+//	              type-parameter type, chan T, func(T) T) inside generic functions and methods of generic types, and on
+//	              fully instantiated generic types outside them (F67)
+//	namedtypes    arguments of NAMED function / slice / map / chan types for every function-consuming and list plugin
+//	              (`type Step func() (int, error)`; deriveDo(a, b Step) …): code that type-checks or a message, never a panic
 //	nonascii      well-typed, supported: type names of 1-3 non-ASCII letters (2-, 3- and 4-byte letters), the
 //	              same type name in two or three imported packages, with helper requests (or user functions)
 //	              that already took prefix, prefix_ and every letter prefix of the name, so that the fresh-name
@@ -1058,6 +1063,18 @@ type WC struct {
 		src := "package PKGDIR\n\nimport ext \"bad/PKGDIR/ext\"\n\nfunc Use(" + params("*ext.T") + ") {\n\t" + body + "\n}\n"
 		add(caseT{Family: "diagnostics", Plugin: pl, What: "external struct with a private field", Call: fn, Names: []string{fn, "private", "ext.T", "hidden"}, Unsupp: true},
 			map[string]string{"u.go": src, "ext/ext.go": "package ext\n\ntype T struct {\n\tPub int\n\thidden []string\n}\n"})
+		// unexported fields whose names do not start with an ASCII lower-case letter (underscore, non-ASCII) and
+		// exported ones with a non-ASCII capital
+		for _, v := range []struct{ what, fields string }{
+			{"unexported fields starting with an underscore", "\tPub int\n\t_flags int\n\t_reserved []byte\n"},
+			{"unexported fields with non-ASCII lower-case names", "\tPub int\n\tñame string\n\tδelta []int\n"},
+			{"exported fields with non-ASCII capitals, a blank field", "\tÑame string\n\tΔelta []int\n\t_ int\n"},
+			{"only unexported fields", "\t_a int\n\tb []string\n"},
+		} {
+			src2 := "package PKGDIR\n\nimport ext \"bad/PKGDIR/ext\"\n\ntype W struct {\n\tE ext.T\n\tP *ext.T\n}\n\nfunc Use(" + params("*ext.T") + ") {\n\t" + body + "\n}\n\nfunc UseW(" + params("*W") + ") {\n\t" + strings.Replace(body, fn, fn+"W", 1) + "\n}\n"
+			add(caseT{Family: "diagnostics", Plugin: pl, What: "external struct: " + v.what, Call: fn, Names: []string{fn, fn + "W", "private", "ext.T", "unexported", "_flags", "ñame", "_a"}, Unsupp: true},
+				map[string]string{"u.go": src2, "ext/ext.go": "package ext\n\ntype T struct {\n" + v.fields + "}\n\nfunc New() *T { return &T{} }\n"})
+		}
 	}
 	// the command line
 	okPkg := "package PKGDIR\n\nfunc Eq(a, b []int) bool { return deriveEqual(a, b) }\n"
@@ -1082,6 +1099,190 @@ type WC struct {
 	for i, g := range []string{"", "\x00", "package", "// only a comment\n", "packag PKGDIR\n", "package PKGDIR; func (", "package 5\n", strings.Repeat("{", 3000)} {
 		add(caseT{Family: "broken", What: fmt.Sprintf("derived.gen.go the parser cannot use (%d)", i), Call: "deriveEqual", Names: []string{"deriveEqual", "derived.gen.go"}},
 			map[string]string{"u.go": okPkg, "derived.gen.go": g})
+	}
+}
+
+// ---------------------------------------------------------------- families: generics, namedtypes
+
+func genGenerics(prefixes map[string]string) {
+	shapes := []struct{ what, tparams, typ string }{
+		{"slice of a type parameter", "[T any]", "[]T"},
+		{"map with type-parameter key and value", "[K comparable, V any]", "map[K]V"},
+		{"pointer to a generic struct instantiated with the type parameter", "[T any]", "*G[T]"},
+		{"generic struct (field of type-parameter type) by value", "[T any]", "G[T]"},
+		{"chan of a type parameter", "[T any]", "chan T"},
+		{"the type parameter itself", "[T comparable]", "T"},
+		{"pointer to the type parameter", "[T any]", "*T"},
+		{"constrained type parameter", "[T ~int | ~string]", "[]T"},
+		{"unnamed struct with a field of type-parameter type", "[T any]", "struct{ F T }"},
+		{"named type over the parameter, declared outside", "[T any]", "Box[T]"},
+	}
+	decls := "type G[T any] struct {\n\tX T\n\tL []T\n\tM map[string]T\n}\n\ntype Box[T any] []T\n\n"
+	for _, tp := range typedPlugins() {
+		for _, sh := range shapes {
+			fn := prefixes[tp.name] + "Gen"
+			at := tp.arg(sh.typ)
+			if tp.name == "keys" {
+				at = "map[string]" + sh.typ
+				if strings.HasPrefix(sh.typ, "map[") {
+					at = sh.typ
+				}
+			}
+			params, body := tp.call(fn)
+			src := "package PKGDIR\n\n" + decls + "func Use" + sh.tparams + "(" + params(at) + ") {\n\t" + body + "\n}\n"
+			add(caseT{Family: "generics", Plugin: tp.name, What: sh.what + ": " + at, Call: fn, Names: []string{fn, "type parameter", "T", "K"}, Unsupp: true},
+				map[string]string{"u.go": src})
+		}
+		// method of a generic type, and a fully instantiated generic type outside any generic function
+		fn := prefixes[tp.name] + "Gen"
+		params, body := tp.call(fn)
+		at := tp.arg("*G[T]")
+		if tp.name == "keys" {
+			at = "map[string]*G[T]"
+		}
+		src := "package PKGDIR\n\n" + decls + "type H[T any] struct{}\n\nfunc (H[T]) Use(" + params(at) + ") {\n\t" + body + "\n}\n"
+		add(caseT{Family: "generics", Plugin: tp.name, What: "inside a method of a generic type: " + at, Call: fn, Names: []string{fn, "type parameter", "T"}, Unsupp: true}, map[string]string{"u.go": src})
+		at = tp.arg("*G[int]")
+		if tp.name == "keys" {
+			at = "map[string]*G[int]"
+		}
+		src = "package PKGDIR\n\n" + decls + "func Use(" + params(at) + ") {\n\t" + body + "\n}\n"
+		add(caseT{Family: "generics", Plugin: tp.name, What: "fully instantiated generic type: " + at, Call: fn, Names: []string{fn, "G[int]", "G"}, Unsupp: true}, map[string]string{"u.go": src})
+	}
+	// function-consuming plugins with generic functions as arguments
+	gd := "func id[T any](x T) T { return x }\n\nfunc pair[T any](x T) (T, error) { return x, nil }\n\nfunc pred[T comparable](x T) bool { var z T; return x == z }\n\n"
+	for _, v := range []struct{ pl, what, sig, call string }{
+		{"fmap", "fmap over a slice of a type parameter", "[T any](xs []T)", "FN(id[T], xs)"},
+		{"fmap", "fmap with an instantiated generic function", "(xs []int)", "FN(id[int], xs)"},
+		{"filter", "filter over a slice of a type parameter", "[T comparable](xs []T)", "FN(pred[T], xs)"},
+		{"all", "all with an instantiated generic predicate", "(xs []string)", "FN(pred[string], xs)"},
+		{"curry", "curry of a function over type parameters", "[A, B any](f func(A, B) bool)", "FN(f)"},
+		{"flip", "flip of a function over type parameters", "[A, B any](f func(A, B) bool)", "FN(f)"},
+		{"mem", "mem of a function over a type parameter", "[A comparable](f func(A) int)", "FN(f)"},
+		{"compose", "compose of generic stages", "[T any]()", "FN(pair[T], pair[T])"},
+		{"do", "do with functions returning a type parameter", "[T any](f func() (T, error))", "FN(f, f)"},
+		{"tuple", "tuple of values of type-parameter types", "[A, B any](a A, b B)", "FN(a, b)"},
+		{"traverse", "traverse over a slice of a type parameter", "[T any](xs []T)", "FN(pair[T], xs)"},
+		{"join", "join of a slice of slices of a type parameter", "[T any](xss [][]T)", "FN(xss)"},
+		{"dup", "dup of a chan of a type parameter", "[T any](c <-chan T)", "FN(c)"},
+		{"apply", "apply with an argument of type-parameter type", "[A, B any](f func(A, B) bool, b B)", "FN(f, b)"},
+		{"toerror", "toerror of a function over a type parameter", "[A any](e error, f func(A) (A, bool))", "FN(e, f)"},
+		{"uncurry", "uncurry of a function over type parameters", "[A, B any](f func(A) func(B) bool)", "FN(f)"},
+		{"pipeline", "pipeline over type parameters", "[A, B, C any](f func(A) <-chan B, g func(B) <-chan C)", "FN(f, g)"},
+	} {
+		fn := prefixes[v.pl] + "Gen"
+		src := "package PKGDIR\n\n" + gd + "func Use" + v.sig + " {\n\t" + strings.ReplaceAll(v.call, "FN", fn) + "\n}\n"
+		add(caseT{Family: "generics", Plugin: v.pl, What: v.what, Call: fn, Names: []string{fn, "type parameter"}, Unsupp: true}, map[string]string{"u.go": src})
+	}
+}
+
+func genNamedTypes(prefixes map[string]string) {
+	decls := `type Step func() (int, error)
+type StepS func() (string, error)
+type Conv func(int) string
+type ConvE func(int) (string, error)
+type Pred func(int) bool
+type Bin func(int, string) bool
+type Cur func(int) func(string) bool
+type Stage1 func(int) (string, error)
+type Stage2 func(string) (float64, error)
+type Src func(int) <-chan string
+type Snk func(string) <-chan float64
+type Ints []int
+type Strs []string
+type Grid [][]int
+type GridN []Ints
+type Set map[int]struct{}
+type Reg map[string]int
+type Ch chan int
+type RCh <-chan int
+type Chs []chan int
+type Err error
+
+var (
+	step  Step
+	stepS StepS
+	conv  Conv
+	convE ConvE
+	pred  Pred
+	bin   Bin
+	cur   Cur
+	st1   Stage1
+	st2   Stage2
+	srcf  Src
+	snkf  Snk
+	ints  Ints
+	strs  Strs
+	grid  Grid
+	gridN GridN
+	set   Set
+	reg   Reg
+	ch    Ch
+	rch   RCh
+	chs   Chs
+	e     Err
+	plain error
+)
+`
+	for _, v := range []struct{ pl, what, call string }{
+		{"do", "named function types", "FN(step, stepS)"},
+		{"do", "one named, one plain function", "FN(step, func() (string, error) { return \"\", nil })"},
+		{"compose", "named stage types", "FN(st1, st2)"},
+		{"fmap", "named function, named slice", "FN(conv, ints)"},
+		{"fmap", "named function, plain slice", "FN(conv, []int{1})"},
+		{"fmap", "plain function, named slice", "FN(func(i int) string { return \"\" }, ints)"},
+		{"fmap", "named function, named chan", "FN(conv, ch)"},
+		{"fmap", "named function, error form with a named function", "FN(func(s string) int { return 0 }, stepS)"},
+		{"join", "named slice of slices", "FN(grid)"},
+		{"join", "named slice of named slices", "FN(gridN)"},
+		{"join", "named slice of strings", "FN(strs)"},
+		{"join", "named chans", "FN(ch, ch)"},
+		{"join", "named slice of chans", "FN(chs)"},
+		{"join", "named function and named error", "FN(step, e)"},
+		{"traverse", "named function, named slice", "FN(convE, ints)"},
+		{"filter", "named predicate, named slice", "FN(pred, ints)"},
+		{"takewhile", "named predicate, named slice", "FN(pred, ints)"},
+		{"all", "named predicate, named slice", "FN(pred, ints)"},
+		{"any", "named predicate, plain slice", "FN(pred, []int{1})"},
+		{"mem", "named function type", "FN(bin)"},
+		{"curry", "named function type", "FN(bin)"},
+		{"flip", "named function type", "FN(bin)"},
+		{"apply", "named function type", "FN(bin, \"s\")"},
+		{"uncurry", "named curried function type", "FN(cur)"},
+		{"toerror", "named error, named function", "FN(e, func(a int) (string, bool) { return \"\", true })"},
+		{"toerror", "plain error, function of a named type", "FN(plain, ToE(nil))"},
+		{"tuple", "values of named types", "FN(ints, reg)"},
+		{"pipeline", "named stage types", "FN(srcf, snkf)"},
+		{"dup", "named receive-only chan", "FN(rch)"},
+		{"dup", "named bidirectional chan", "FN(ch)"},
+		{"sort", "named slice", "FN(ints)"},
+		{"sort", "named slice of strings", "FN(strs)"},
+		{"set", "named slice", "FN(ints)"},
+		{"unique", "named slice", "FN(ints)"},
+		{"min", "named slice and a constant", "FN(ints, 0)"},
+		{"max", "named slice and an element", "FN(ints, ints[0])"},
+		{"contains", "named slice", "FN(strs, \"a\")"},
+		{"union", "named slices", "FN(ints, ints)"},
+		{"union", "named map sets", "FN(set, set)"},
+		{"intersect", "named slices", "FN(ints, ints)"},
+		{"intersect", "named map sets", "FN(set, set)"},
+		{"keys", "named map", "FN(reg)"},
+		{"keys", "named map set", "FN(set)"},
+		{"equal", "named function values", "FN(step, step)"},
+		{"hash", "named chan", "FN(ch)"},
+		{"deepcopy", "named slices of slices", "FN(grid, grid)"},
+		{"clone", "named map", "FN(reg)"},
+		{"gostring", "named slice of named slices", "FN(gridN)"},
+		{"compare", "named map sets", "FN(set, set)"},
+	} {
+		if _, ok := prefixes[v.pl]; !ok {
+			continue
+		}
+		fn := prefixes[v.pl] + "Named"
+		src := "package PKGDIR\n\n" + decls + "\ntype ToE func(int) (string, bool)\n\nfunc Use() {\n\t" + strings.ReplaceAll(v.call, "FN", fn) + "\n}\n"
+		add(caseT{Family: "namedtypes", Plugin: v.pl, What: v.what + ": " + v.call, Call: fn,
+			Names: []string{fn, "Step", "StepS", "Conv", "ConvE", "Pred", "Bin", "Cur", "Stage1", "Stage2", "Ints", "Strs", "Grid", "GridN", "Set", "Reg", "Ch", "RCh", "Chs", "Err", "Src", "Snk", "ToE", "struct{}"}, Unsupp: true},
+			map[string]string{"u.go": src})
 	}
 }
 
@@ -1277,6 +1478,8 @@ func main() {
 	genBroken()
 	genAliasClash()
 	genUnresolved(prefixes)
+	genGenerics(prefixes)
+	genNamedTypes(prefixes)
 	genDiagnostics(prefixes)
 	genXTest()
 	genBlankFields(prefixes)
